@@ -82,9 +82,9 @@ PROPS = {
                 rule='a case is one decoded (program, schedule, clock, semaphore-flavour) tuple over LOCK / MON programs and STARVE programs (a victim woken up to 30+ times against bargers doing up to 200 rounds); non-trivial = at least one acquisition went through a slow path (a thread blocked on its semaphore or a CAS on the mutex word failed); distinct = distinct (program hash, realized trace hash)'),
     'C03': dict(num=3, sim=[(None, 1)], quick=250000, thorough=1500000, flavours_quick=['gcc_new', 'c11', 'cpp11'], flavours_thorough=['gcc_new', 'c11', 'cpp11'],
                 rule='programs of the MON/LOCK/ONCE/NOTE/CTR/WAITN families with client data attached to every hand-off, all three atomic flavours; oracle = vector-clock race detector crediting only declared memory orders; non-trivial = the execution contains at least one plain access that conflicts with an earlier access of another thread and is ordered only through nsync atomics; distinct = distinct (program hash, realized trace hash)'),
-    'C04': dict(num=4, sim=[('MON', 1)], quick=400000, thorough=2000000, flavours_thorough=['gcc_new', 'c11', 'cpp11'],
+    'C04': dict(num=4, sim=[('MON', 1)], quick=400000, thorough=2000000, flavours_quick=[('gcc_new', 14), ('cpp11', 2)], flavours_thorough=['gcc_new', 'c11', 'cpp11'],
                 rule='MON programs with cv waiters (plain, timed, cancellable, reader-mode, generic-lock, nsync_wait_n) and signallers/broadcasters inside or after critical sections; non-trivial = a wait on the cv returned (for any reason) between the first and the last step of a wake-up call on that cv that could see it; distinct = distinct (program hash, realized trace hash)'),
-    'C05': dict(num=5, sim=[('MON', 1)], quick=400000, thorough=2000000, flavours_thorough=['gcc_new', 'c11', 'cpp11'],
+    'C05': dict(num=5, sim=[('MON', 1)], quick=400000, thorough=2000000, flavours_quick=[('gcc_new', 14), ('cpp11', 2)], flavours_thorough=['gcc_new', 'c11', 'cpp11'],
                 rule='MON programs with timed / cancellable cv and mu waits, notes fresh / notified / expiring / child of an expiring parent, reader and writer mode; non-trivial = some wait returned ETIMEDOUT or ECANCELED; distinct = distinct (program hash, realized trace hash)'),
     'C06': dict(num=6, sim=[('MON', 1)], quick=400000, thorough=2000000, flavours_thorough=['gcc_new', 'c11', 'cpp11'],
                 rule='MON programs with 2..4 nsync_mu_wait callers over 6 condition classes; non-trivial = two conditional waiters were queued together and an unlocker evaluated a condition, or a conditional waiter left the queue by timeout/cancel while another was queued; distinct = distinct (program hash, realized trace hash)'),
@@ -123,6 +123,9 @@ def run_sim_property(pid, tier, seed, embedded=False):
     open_known = [e for e in known if e.get('status') == 'open']
     suppress = ';'.join(e['signature'] for e in open_known)
     flavours = cfg.get('flavours_quick', ['gcc_new']) if tier == 'quick' else cfg.get('flavours_thorough', ['gcc_new'])
+    # an entry is a flavour name (shards divided evenly) or (name, number of shards)
+    fl_shards = {f[0]: f[1] for f in flavours if not isinstance(f, str)}
+    flavours = [f if isinstance(f, str) else f[0] for f in flavours]
     sos = {fl: build_sim(pid, fl) for fl in flavours}
     wdir = f'{WORK}/{pid}'
     violations = []
@@ -153,10 +156,10 @@ def run_sim_property(pid, tier, seed, embedded=False):
     jobs = []
     shard = 0
     for fl in flavours:
-        nshards = NPROC if len(flavours) == 1 else max(4, NPROC // len(flavours))
+        nshards = fl_shards.get(fl) or (NPROC if len(flavours) == 1 else max(4, NPROC // len(flavours)))
         for k in range(nshards):
             famlist = [f for (f, w) in cfg['sim'] for _ in range(w)]
-            fam = famlist[k % len(famlist)]
+            fam = famlist[(k + (3 if fl in fl_shards and fl != flavours[0] else 0)) % len(famlist)]
             out = f'{wdir}/shard_{shard}.json'
             hs = f'{wdir}/shard_{shard}.hashes'
             cmd = [f'{BIN}/simcheck', '--so', sos[fl], '--prop', str(cfg['num']), '--cases', str(cases),
